@@ -9,7 +9,7 @@ use crate::c01::{sizes, Sizes};
 use crate::gen::Blob;
 use crate::util::*;
 use crate::Ctx;
-use ipc_channel::ipc::{self, IpcOneShotServer, IpcReceiver, IpcReceiverSet, IpcSelectionResult, IpcSender, TryRecvError};
+use ipc_channel::ipc::{self, IpcOneShotServer, IpcReceiverSet, IpcSelectionResult, IpcSender, TryRecvError};
 use serde_json::json;
 use std::collections::HashMap;
 use std::io::Write;
